@@ -53,7 +53,7 @@ func genC07Tasks(r *Rng, g *Gen, w *World, nt int) {
 			kind := c07calls[r.Intn(len(c07calls))]
 			s := Step{Op: kind, Expr: r.Intn(len(w.Exprs))}
 			if kind != "dump" && kind != "dumptable" {
-				p := Plan{Kind: kind, Bind: g.Binding(), Clock: int64(r.Range(1, 1000))}
+				p := Plan{Kind: kind, Bind: g.Binding(), Clock: int64(r.Range(1, 1000)), CtxDone: r.P(0.1)}
 				switch r.Intn(8) {
 				case 0:
 					p.FailAt = []int{r.Intn(6)}
@@ -98,7 +98,7 @@ func (propC07) Gen(r *Rng, tier string) *World {
 	ne := r.Range(1, 3)
 	for i := 0; i < ne; i++ {
 		w.Progs = append(w.Progs, g.Program())
-		w.Exprs = append(w.Exprs, ExprSpec{Prog: i, Mask: r.Intn(16), Event: []string{"", "", "report", "debug"}[r.Intn(4)]})
+		w.Exprs = append(w.Exprs, ExprSpec{Prog: i, Mask: r.Intn(16), Event: []string{"", "", "report", "debug", "both"}[r.Intn(5)]})
 	}
 	w.Cfg = g.C
 	w.Cfg.ViaDirect = r.P(0.2)
